@@ -209,7 +209,13 @@ where
     type Stream = Self;
 
     fn into_parts(self) -> (Vector<VectorDiffContainerStreamElement<S>>, Self::Stream) {
-        (self.buffered_vector.clone(), self)
+        // Hand out the limited view, not the internal copy of the source.
+        let mut values = self.buffered_vector.clone();
+        if self.limit < values.len() {
+            values.truncate(self.limit);
+        }
+
+        (values, self)
     }
 }
 
